@@ -30,8 +30,13 @@ use serde::{Deserialize, Serialize};
 use std::collections::{BTreeSet, HashMap, HashSet, VecDeque};
 use std::net::SocketAddr;
 use std::sync::{Arc, Mutex};
-use std::time::{Duration, Instant, SystemTime};
+#[cfg(not(feature = "verif-hooks"))]
+use std::time::Instant;
+use std::time::{Duration, SystemTime};
 use tokio::sync::{RwLock, Semaphore, broadcast, oneshot};
+// Under the simulation seam the sweep of orphaned operations follows simulated time.
+#[cfg(feature = "verif-hooks")]
+use tokio::time::Instant;
 use tokio_util::sync::CancellationToken;
 use tracing::{debug, info, trace, warn};
 use uuid::Uuid;
@@ -2729,6 +2734,43 @@ impl DhtNetworkManager {
     /// Get the security metrics collector from the local DHT core.
     pub async fn security_metrics(&self) -> Arc<crate::dht::metrics::SecurityMetricsCollector> {
         self.dht.read().await.security_metrics()
+    }
+}
+
+/// Deterministic-simulation accessors (only with feature `verif-hooks`).
+#[cfg(feature = "verif-hooks")]
+impl DhtNetworkManager {
+    /// Number of pending DHT RPCs.
+    pub fn verif_active_operations_len(&self) -> usize {
+        self.active_operations.lock().map(|o| o.len()).unwrap_or(0)
+    }
+
+    /// The local DHT core engine.
+    pub fn verif_dht(&self) -> Arc<RwLock<DhtCoreEngine>> {
+        Arc::clone(&self.dht)
+    }
+
+    /// Peers the manager tracks: (peer id, DHT key, first address, connected).
+    pub async fn verif_dht_peers(&self) -> Vec<(PeerId, Key, Option<String>, bool)> {
+        self.dht_peers
+            .read()
+            .await
+            .values()
+            .map(|p| {
+                (
+                    p.peer_id.clone(),
+                    p.dht_key,
+                    p.addresses.first().map(|a| a.to_string()),
+                    p.is_connected,
+                )
+            })
+            .collect()
+    }
+
+    /// Whether the background task handles have been taken and joined by `stop()`.
+    pub async fn verif_background_tasks_joined(&self) -> bool {
+        self.maintenance_handle.read().await.is_none()
+            && self.event_handler_handle.read().await.is_none()
     }
 }
 
